@@ -10,11 +10,14 @@
 //!   wn=<n>;<n>;…       per rule: 1 = named rule, 0 = skip rule (reference lexer)
 //!   b=<hex>;<hex>;…    battery strings for the regex-equivalence oracle
 //!   in=<hex>;<hex>;…   inputs to lex with the built definition (and with the reference lexer)
+//!   lim=1              also report the numeric flags of the %grmtools section (LIM section)
 //!   flags = comma list of `<name>:<0|1>` with names dnl ml oct pe awc ci sg iw uni, or `-`
 //!
 //! result line: sections joined by ` | `
 //!   HDR <pos> <flags>            what the public header parser + `LexFlags::try_from` say (`HDR E` on error,
 //!                                `HDR <pos> E` on a conversion error, `HDR P` on a panic)
+//!   LIM nest:<v|-> size:<v|-> dfa:<v|->    (with lim=1) the numeric flags `LexFlags::try_from` yields for the parsed section, or
+//!   LIM E <kind> { <s> <e> }*                the conversion error with its locations
 //!   OK <nrules> <nstates> { ; r <namehex|-> <s> <e> x<re_str hex> <id,id..|-> <-|id:op> }* { ; s <id> x<namehex> <0|1> <s> <e> }*
 //!   ERRS <n> { ; X <kind> <nspans> {<s> <e>}* }*
 //!   PANIC <msg>
@@ -23,6 +26,10 @@
 //!   RX { <k>:<neq>:<ndiff>[:x<first differing battery string>:<impl>:<written>] | <k>:IMPLERR | <k>:WRITTENERR }*
 //!   LX { x<input>=<tok>:<start>:<len>,… [E<start>] }*      lexemes of the implementation
 //!   RL { x<input>=… }*                                     lexemes of the reference lexer (from w=, wn=, f=)
+//!   ANCH ok | ANCH { x<input>:<tok>:<start>:<len> }*       (with in=) emitted lexemes whose text is NOT what a rule of that token id
+//!                                                          matches when its re_str — compiled on its own under f=, not spliced into a
+//!                                                          wrapper — is searched in the remaining input: the match must exist, start
+//!                                                          at offset 0 and have the lexeme's length
 use cfgrammar::header::GrmtoolsSectionParser;
 use cfgrammar::Spanned;
 use gvh::common::*;
@@ -102,10 +109,9 @@ fn show_flags(f: &LexFlags) -> String {
     }
 }
 
-/// The regex a rule with text `re` is documented to be under flags `f`
-/// (documented defaults: dot_matches_new_line, multi_line, octal = true).
-fn compile(re: &str, f: &LexFlags) -> Result<Regex, regex::Error> {
-    let mut b = RegexBuilder::new(&format!("\\A(?:{})", re));
+/// `re` compiled under flags `f`, exactly as given (`anchored` = spliced into `\A(?:..)`).
+fn build(re: &str, f: &LexFlags, anchored: bool) -> Result<Regex, regex::Error> {
+    let mut b = if anchored { RegexBuilder::new(&format!("\\A(?:{})", re)) } else { RegexBuilder::new(re) };
     b.octal(f.octal.unwrap_or(true))
         .multi_line(f.multi_line.unwrap_or(true))
         .dot_matches_new_line(f.dot_matches_new_line.unwrap_or(true));
@@ -122,6 +128,14 @@ fn compile(re: &str, f: &LexFlags) -> Result<Regex, regex::Error> {
         b.swap_greed(x);
     }
     b.build()
+}
+
+/// The regex a rule with text `re` is documented to be under flags `f`
+/// (documented defaults: dot_matches_new_line, multi_line, octal = true): `re` must be a regular
+/// expression on its own; it is then anchored at the start of the remaining input.
+fn compile(re: &str, f: &LexFlags) -> Result<Regex, regex::Error> {
+    build(re, f, false)?;
+    build(re, f, true)
 }
 
 fn sel(src: &str, s: usize, e: usize) -> String {
@@ -155,6 +169,7 @@ fn run(line: &str) -> String {
     let mut opt: Option<LexFlags> = None;
     let mut force = UNSPECIFIED_LEX_FLAGS;
     let (mut w, mut wn, mut bat, mut inputs) = (vec![], vec![], vec![], vec![]);
+    let mut lim = false;
     for tok in line.split_whitespace() {
         let (k, v) = match tok.split_once('=') {
             Some(x) => x,
@@ -168,6 +183,7 @@ fn run(line: &str) -> String {
             "wn" => wn = list(v),
             "b" => bat = list(v).iter().map(|x| uh(x)).collect(),
             "in" => inputs = list(v).iter().map(|x| uh(x)).collect(),
+            "lim" => lim = v == "1",
             _ => return "BADCASE".to_string(),
         }
     }
@@ -181,6 +197,32 @@ fn run(line: &str) -> String {
         Ok(Ok((pos, None))) => write!(o, "HDR {} E", pos).unwrap(),
         Ok(Err(_)) => o.push_str("HDR E"),
         Err(_) => o.push_str("HDR P"),
+    }
+    if lim {
+        let s2 = src.clone();
+        match catch(move || {
+            GrmtoolsSectionParser::new(&s2, false).parse().map(|(mut h, _)| LexFlags::try_from(&mut h))
+        }) {
+            Ok(Ok(Ok(f))) => {
+                let sh = |x: Option<u128>| x.map(|v| v.to_string()).unwrap_or("-".to_string());
+                write!(
+                    o,
+                    " | LIM nest:{} size:{} dfa:{}",
+                    sh(f.nest_limit.map(|v| v as u128)),
+                    sh(f.size_limit.map(|v| v as u128)),
+                    sh(f.dfa_size_limit.map(|v| v as u128))
+                )
+                .unwrap()
+            }
+            Ok(Ok(Err(e))) => {
+                write!(o, " | LIM E {}", debug_kind(&e)).unwrap();
+                for sp in e.locations.iter() {
+                    write!(o, " {} {}", sp.start(), sp.end()).unwrap();
+                }
+            }
+            Ok(Err(_)) => o.push_str(" | LIM HE"),
+            Err(_) => o.push_str(" | LIM P"),
+        }
     }
     // --- the definition
     let s2 = src.clone();
@@ -300,6 +342,29 @@ fn run(line: &str) -> String {
                 }
             }
             o.push_str(&parts.join(","));
+        }
+        // every emitted lexeme is text that one of the rules of its token id matches AT the lexeme's start
+        let raw: Vec<(Option<u32>, Option<Regex>)> =
+            def.iter_rules().map(|r| (r.tok_id(), build(r.re_str(), &force, false).ok())).collect();
+        let mut bad = vec![];
+        for t in &inputs {
+            let lexer = def.lexer(t);
+            for l in lexer.iter().flatten() {
+                let (st, len) = (l.span().start(), l.span().len());
+                let ok = t.is_char_boundary(st)
+                    && raw.iter().any(|(id, re)| {
+                        *id == Some(l.tok_id())
+                            && re.as_ref().and_then(|re| re.find(&t[st..])).map(|m| m.start() == 0 && m.end() == len).unwrap_or(false)
+                    });
+                if !ok {
+                    bad.push(format!("x{}:{}:{}:{}", hex(t), l.tok_id(), st, len));
+                }
+            }
+        }
+        if bad.is_empty() {
+            o.push_str(" | ANCH ok");
+        } else {
+            write!(o, " | ANCH {}", bad.join(" ")).unwrap();
         }
         if !w.is_empty() {
             let res: Vec<Option<Regex>> = w.iter().map(|x| compile(&uh(x), &force).ok()).collect();
